@@ -1301,9 +1301,10 @@ fn crash_like_case(mode: &str, seed: u64, idx: u64, thorough: bool, stats: &mut 
                 for (name, (len, dg)) in &real {
                     let (l2, d2) = mine[name];
                     // journals, the version marker and the lock file must be byte-identical; table / blob / manifest
-                    // files embed creation timestamps, so only their length is compared
+                    // files embed creation timestamps (and, for compressed blocks, lengths that depend on them), so for
+                    // those only the existence of the file is compared
                     let exact = is_journal(name) || name == "version" || name == "lock";
-                    if *len != l2 || (exact && *dg != d2) {
+                    if exact && (*len != l2 || *dg != d2) {
                         return Err(format!("file {name}: really killed directory has {len} bytes (digest {dg:x}), replayed image {l2} bytes (digest {d2:x})"));
                     }
                 }
